@@ -58,7 +58,7 @@ func (fold *fold) Exit(node *Node) {
 		switch n.Operator {
 		case "+":
 			if a, ok := n.Left.(*IntegerNode); ok && foldable(a.Type()) {
-				if b, ok := n.Right.(*IntegerNode); ok && foldable(b.Type()) {
+				if b, ok := n.Right.(*IntegerNode); ok && foldable(b.Type()) && a.Type() == b.Type() {
 					patchWithType(&IntegerNode{Value: a.Value + b.Value}, a.Type())
 				}
 			}
@@ -69,19 +69,19 @@ func (fold *fold) Exit(node *Node) {
 			}
 		case "-":
 			if a, ok := n.Left.(*IntegerNode); ok && foldable(a.Type()) {
-				if b, ok := n.Right.(*IntegerNode); ok && foldable(b.Type()) {
+				if b, ok := n.Right.(*IntegerNode); ok && foldable(b.Type()) && a.Type() == b.Type() {
 					patchWithType(&IntegerNode{Value: a.Value - b.Value}, a.Type())
 				}
 			}
 		case "*":
 			if a, ok := n.Left.(*IntegerNode); ok && foldable(a.Type()) {
-				if b, ok := n.Right.(*IntegerNode); ok && foldable(b.Type()) {
+				if b, ok := n.Right.(*IntegerNode); ok && foldable(b.Type()) && a.Type() == b.Type() {
 					patchWithType(&IntegerNode{Value: a.Value * b.Value}, a.Type())
 				}
 			}
 		case "/":
 			if a, ok := n.Left.(*IntegerNode); ok && foldable(a.Type()) {
-				if b, ok := n.Right.(*IntegerNode); ok && foldable(b.Type()) {
+				if b, ok := n.Right.(*IntegerNode); ok && foldable(b.Type()) && a.Type() == b.Type() {
 					if b.Value == 0 {
 						fold.err = &file.Error{
 							Location: (*node).Location(),
